@@ -115,6 +115,16 @@ PROGRAMS = [
     ("def f(name):\n    return 'hello %s!' % name\n", "f('n')", ["use_fstrings"]),
     ("def f(a, b):\n    x = [a, *b]\n    y = 3\n    return x\n", "f(1, [2])", []),
     ("def g(*, k, j=1):\n    return k + j\ndef f(name):\n    h = lambda *, k: k\n    return 'v: %s' % name + str(g(k=1)) + str(h(k=2))\n", "f('n')", ["use_fstrings"]),
+    # multi-line statements closed by each kind of bracket on a line of its own
+    ("def f(name):\n    xs = [\n        'a: %s' % name,\n        'b',\n    ]\n    return xs\n", "f('n')", ["use_fstrings"]),
+    ("def f(name):\n    d = {\n        'k': 'a: %s' % name,\n    }\n    return d\n", "f('n')", ["use_fstrings"]),
+    ("def f(name):\n    t = (\n        'a: %s' % name,\n        1,\n    )\n    return t\n", "f('n')", ["use_fstrings"]),
+    ("def f(name):\n    xs = [\n        {\n            'k': 'a: %s' % name,\n        }\n    ]\n    return xs\n", "f('n')", ["use_fstrings"]),
+    # conversions that an f-string rewrite must either keep or leave alone (width, precision, flags)
+    ("def f(x):\n    return '%5s|' % x\n", "f('ab')", ["use_fstrings"]),
+    ("def f(x):\n    return '%-5s|%05d' % (x, 3)\n", "f('ab')", ["use_fstrings"]),
+    ("def f(x):\n    return '%.1f and %s' % (1.26, x)\n", "f('ab')", ["use_fstrings"]),
+    ("def f(x):\n    return '%d%%' % x\n", "f(3)", ["use_fstrings"]),
 ]
 
 
